@@ -109,8 +109,14 @@ def run_trace_child(libs, reqs):
     return res
 
 
-def run_api_child(asan_src, reqs, extra_path=None):
-    """-> {id: {'outcome': 'ok'|'ok:<v>'|'raise:X'|'crash', 'reports': [...]}}"""
+KTABLE = os.path.join(common.LEAN, "Pyunicorn", "Generated", "StructC20.json")
+DTYPE_OF = {"ADJ_t": "int8", "MASK_t": "int8", "LAG_t": "int8", "DEGREE_t": "int16", "NODE_t": "int32",
+            "FIELD_t": "float32", "WEIGHT_t": "float32", "DFIELD_t": "float64", "DWEIGHT_t": "float64"}
+
+
+def run_api_child(asan_src, reqs, extra_path=None, kcalls=None):
+    """-> {id: {'outcome': 'ok'|'ok:<v>'|'raise:X'|'crash', 'reports': [...]}}; kernel calls
+    observed by the probe (kernel, shapes/ints, outcome) are appended to `kcalls`"""
     res = {}
     todo = list(reqs)
     env = dict(os.environ)
@@ -119,6 +125,8 @@ def run_api_child(asan_src, reqs, extra_path=None):
                             "allocator_may_return_null=1",
                UBSAN_OPTIONS="print_stacktrace=0:halt_on_error=0",
                PYTHONPATH=asan_src, OMP_NUM_THREADS="1", OPENBLAS_NUM_THREADS="1")
+    if kcalls is not None and os.path.exists(KTABLE):
+        env["C20_KERNEL_TABLE"] = KTABLE
     env.pop(common.GUARD, None)
     while todo:
         with tempfile.NamedTemporaryFile("w", suffix=".jsonl", prefix="C20-", delete=False) as fh:
@@ -139,6 +147,9 @@ def run_api_child(asan_src, reqs, extra_path=None):
             elif line.startswith("@@BEGIN "):
                 cur = line.split()[1]
                 res[cur] = {"outcome": "crash", "reports": []}
+            elif line.startswith("@@KCALL "):
+                if kcalls is not None:
+                    kcalls.append(tuple(json.loads(line[8:])))
             elif line.startswith("@@END "):
                 parts = line.split(" ", 2)
                 res[parts[1]]["outcome"] = parts[2].strip()
@@ -194,6 +205,22 @@ def enc_rat(v):
         return "nan"
     f = Fraction(v)
     return str(f.numerator) if f.denominator == 1 else f"{f.numerator}/{f.denominator}"
+
+
+def enc_x(v):
+    v = float(v)
+    if v == float("inf"):
+        return "inf"
+    if v == float("-inf"):
+        return "-inf"
+    return enc_rat(v)
+
+
+def enc_xdata(M):
+    M = np.asarray(M)
+    if M.size == 0:
+        return "-"
+    return ";".join(",".join(enc_x(v) for v in row) for row in M)
 
 
 def enc_data(M):
@@ -254,7 +281,12 @@ def run(ctx):
                 "with or without update_resistances) / non-default n_bins of the climate routine, on the "
                 "ASan+UBSan build: verdict vs model; T3: adaptive-neighbourhood kernel on valid, permuted, "
                 "repeated, prefilled, degenerate and corrupted tables, n_time smaller / larger than the "
-                "matrix, with the model's well-formedness test against an independent evaluation; oracle "
+                "matrix, with the model's well-formedness test against an independent evaluation; T1 also with "
+                "+-inf / NaN data, scaling in {0, 2^-k, inf}, range_min in {finite, -inf}; T4: the typed-buffer "
+                "kernels without data-dependent subscripts x buffer extents exactly as needed / larger / one short "
+                "on one axis / random x integer parameters 0..4: IndexError | normal return vs the prediction from "
+                "the generated site lists; every kernel call made under the public API is recorded with its "
+                "shapes and tested against the contract the in-bounds theorems assume; oracle "
                 "stream: other dtypes, random / +-inf / NaN / overflowing / subnormal-range float data in "
                 "both widths, n_bins up to 4096, RecurrencePlot / VisibilityGraph entry points, histories on "
                 "one Surrogates / RecurrencePlot object with library-held arrays.  distinct = distinct "
@@ -270,8 +302,12 @@ def run(ctx):
         "element counts of every array < 2^31 (under this hypothesis the *_sites_fit theorems prove "
         "that no int index expression of the translated C text overflows; the pointer walks with "
         "running offsets are computed in unbounded integers in the model)",
-        "the binary64 product of a value < 1 with n_bins < 2^31 rounds below n_bins (hypothesis of "
-        "symbolRnd_in_range_partial; driven by the near-one inputs)",
+        "floating-point rounding is monotone, idempotent, fixes 0 and returns a nearest binary64 value "
+        "(hypotheses of symbolRnd_in_range_b64; no bit-level IEEE model)",
+        "the data-dependent subscripts of the typed-buffer kernels (indices read from arrays, random draws, "
+        "while counters; census in extra.typed_buffer_census) are protected by Cython's bounds check",
+        "the contracts of the typed-buffer kernels (translate/c20_contracts.json) describe what the Python "
+        "callers pass: validated on the calls observed in this run, not derived from the callers' source",
         "alloca(4*8*tmax) in _spearman_corr does not exhaust the stack (not modelled)",
     ]
     ctx.proofs()
@@ -331,6 +367,43 @@ def run(ctx):
                        A(np.zeros((m, nb)), "int32"), A(np.zeros((nb, nb)), "int32"),
                        A(np.zeros((m, m)), "float32")],
                       (m, T, nb, d1.tobytes().hex(), d2.tobytes().hex()), m * T > 0)
+    # data, scaling and range_min with infinities (what min / max / 1/(max-min) of such data give:
+    # range_min = -inf or the least finite value, scaling = 0, a power of two, or +inf)
+    for (m, T) in [g for g in grid if g[0] * g[1] > 0][:(10 if quick else 40)]:
+        for fn in ("mi", "tmi"):
+            nb = rng.choice([1, 2, 3, 4, 8])
+            pw = rng.choice([0, 1, -3, 10])
+            rm = rng.choice([0.0, -1.0, float("-inf")])
+            sc = rng.choice([0.0, 2.0 ** (-pw), float("inf")])
+            lo = 0.0 if rm == float("-inf") else rm
+
+            def xd():
+                d = dyadic(nprng, (m, T), lo, pw, rng.choice([0.0, 0.2]))
+                for _k in range(rng.randrange(1, 3)):
+                    d.flat[rng.randrange(d.size)] = float("inf") if (rm != float("-inf")
+                                                                     or rng.random() < 0.5) else rm
+                return d
+            ctx.count(f"trace-inf:{fn}:scaling={enc_x(sc) if sc in (0.0, float('inf')) else 'finite'}"
+                      f":range_min={'-inf' if rm == float('-inf') else 'finite'}")
+            if fn == "mi":
+                d = xd()
+                add_trace("mi", f"tracex mi {m} {T} {nb} {enc_x(sc)} {enc_x(rm)} {enc_xdata(d)}",
+                          [T, m, nb, sc, rm],
+                          [A(d, "float32"), A(np.zeros((m, T)), "int64"), A(np.zeros((m, nb)), "int64"),
+                           A(np.zeros((nb, nb)), "int64"), A(np.zeros((m, m)), "float32")],
+                          ("inf", m, T, nb, sc, rm, d.tobytes().hex()), True,
+                          {"routine": "_mutual_information", "data": "with +-inf", "scaling": enc_x(sc),
+                           "range_min": enc_x(rm)})
+            else:
+                d1, d2 = xd(), xd()
+                add_trace("tmi", f"tracex tmi {m} {T} {nb} {enc_x(sc)} {enc_x(rm)} "
+                                 f"{enc_xdata(d1)} {enc_xdata(d2)}",
+                          [m, T, nb, sc, rm],
+                          [A(d1, "float64"), A(d2, "float64"), A(np.zeros((m, T)), "int32"),
+                           A(np.zeros((m, T)), "int32"), A(np.zeros((m, nb)), "int32"),
+                           A(np.zeros((m, nb)), "int32"), A(np.zeros((nb, nb)), "int32"),
+                           A(np.zeros((m, m)), "float32")],
+                          ("inf", m, T, nb, sc, rm, d1.tobytes().hex(), d2.tobytes().hex()), True)
     for N in [0, 1, 2, 3, 4, 5] + ([] if quick else [6, 7, 9]):
         adm, R = nprng.rand(N, N), nprng.rand(N, N)
         for i in range(N):
@@ -552,11 +625,16 @@ def run(ctx):
     # oracle stream (no model): other dtypes, random floats, RQA / visibility entry points
     oreqs = oracle_stream(ctx, rng, nprng, quick)
 
-    allreqs = areqs + kreqs + oreqs
+    # T4: typed-buffer kernels at their own boundary (shapes at, above and below what the loops need)
+    preqs, pmodel = pyx_kernel_requests(ctx, rng, quick)
+
+    allreqs = areqs + kreqs + oreqs + preqs
     nchunk = 4
     chunks = [allreqs[i::nchunk] for i in range(nchunk)]
+    kcalls = []
     with ThreadPoolExecutor(nchunk) as ex:
-        parts = list(ex.map(lambda ch: run_api_child(asan_src, ch) if ch else {}, chunks))
+        parts = list(ex.map(lambda ch: run_api_child(asan_src, ch, kcalls=kcalls) if ch else {},
+                            chunks))
     ares = {}
     for p in parts:
         ares.update(p)
@@ -569,8 +647,10 @@ def run(ctx):
             cls = "-"
             if q["id"].startswith("a"):
                 cls = ameta[int(q["id"][1:])][1]
-            elif q["id"].startswith("o"):
+            elif q["id"].startswith("o") or q["id"].startswith("p"):
                 cls = q.get("cls", "-")
+                if q["id"].startswith("p"):
+                    cls = q["key"] + ":" + cls
             kind = "crash" if not r["reports"] else \
                 ("ubsan" if all("runtime error" in x or x.startswith("#") for x in r["reports"])
                  else "asan")
@@ -602,8 +682,116 @@ def run(ctx):
 
     ctx.correspond("_set_adaptive_neighborhood_size outcome == Lean while-kernel model",
                    kmodel, kimpl)
+
+    # T4: the outcome predicted from the generated site lists (Lean driver) against the compiled kernel
+    pred = common.driver("C20", pmodel) if pmodel else []
+    pimpl = []
+    for q, m in zip(preqs, pred):
+        r = ares[q["id"]]
+        o = r["outcome"]
+        if r["reports"] or o == "crash":
+            pimpl.append("oob")
+        elif m == "raise":
+            pimpl.append("raise" if o.startswith("raise:") else "ok")
+        elif m == "ok":         # (ZeroDivisionError etc. are not index matters)
+            pimpl.append("raise" if o == "raise:IndexError" else "ok")
+        else:
+            pimpl.append(m)
+        ctx.count(f"kernel-boundary:{m}:{o.split(':')[-1] if o.startswith('raise') else 'returned'}")
+    ctx.correspond("typed-buffer kernels: IndexError / normal return == prediction from the generated "
+                   "site lists", pmodel, pimpl)
+
+    # kernel calls observed under the public API: do they satisfy the contracts the theorems assume?
+    table = json.load(open(KTABLE)) if os.path.exists(KTABLE) else {}
+    uncovered = []
+    for (key, recs, out) in sorted(set(kcalls)):
+        rec = json.loads(recs)
+        rels = table.get(key, {}).get("contract", [])
+        ok = True
+        for rel in rels:
+            try:
+                ok &= bool(eval(rel, {"__builtins__": {}}, dict(rec)))
+            except NameError:
+                pass
+        ctx.case(("kcall", key, recs), True)
+        ctx.count(f"kernel-call:{key}:{'contract-holds' if ok else 'outside-contract'}:{out}")
+        if not ok and out == "ok":
+            uncovered.append(f"{key} {recs}")
+    ctx.extra["kernel_calls_observed"] = len(set(kcalls))
+    ctx.extra["kernel_calls_outside_contract_returning"] = uncovered[:20]
+    ctx.extra["typed_buffer_census"] = {k: [v["n_closed"], v["n_checked"], v["n_pyobj"]]
+                                        for k, v in table.items() if v["n_closed"] + v["n_checked"]}
     for v in kimpl:
         ctx.count("adaptive-outcome:" + ("raise" if "raise" in v else "matrix"))
+
+
+KERNEL_FIX = {      # scalar choices that keep non-index errors (allocation, division) out of the way
+    "core:_mpi_newman_betweenness": lambda a: a.update(end_i=a["start_i"] + a["end_i"]),
+    "core:_mpi_nsi_newman_betweenness": lambda a: a.update(end_i=a["start_i"] + a["end_i"]),
+}
+
+
+def pyx_kernel_requests(ctx, rng, quick):
+    """kernels all of whose subscripts are closed-form and that have no `while` loop"""
+    if not os.path.exists(KTABLE):
+        return [], []
+    table = json.load(open(KTABLE))
+    reqs, model = [], []
+    pure = [k for k, v in sorted(table.items())
+            if v["keyword"] == "def" and v["n_closed"] and not v["n_checked"] and not v["n_pyobj"]
+            and not v["has_while"] and all(p[1] in ("buf", "int", "float") for p in v["params"])]
+    ctx.extra["kernel_boundary_kernels"] = pure
+    for key in pure:
+        info = table[key]
+        for _ in range(6 if quick else 40):
+            sc = {p[0]: rng.choice([0, 1, 2, 3, 4]) for p in info["params"] if p[1] == "int"}
+            if key in KERNEL_FIX:
+                KERNEL_FIX[key](sc)
+            mode = rng.choice(["fit", "fit", "big", "random", "one-short"])
+            kv = dict(sc)
+            kargs = []
+            short = rng.randrange(0, 8)
+            nax = 0
+            for (pn, kind, ty, nd) in info["params"]:
+                if kind == "int":
+                    kargs.append(sc[pn])
+                elif kind == "float":
+                    kargs.append(rng.choice([0.0, 0.5, 1.0]))
+                else:
+                    shape = []
+                    for ax in range(nd):
+                        if mode == "random":
+                            d = rng.randrange(0, 7)
+                        else:
+                            d = needed_extent(info, f"{pn}_{ax}", sc) if mode != "big" else 9
+                            if mode == "one-short" and nax == short % max(1, sum(
+                                    p[3] for p in info["params"] if p[1] == "buf")):
+                                d = max(0, d - 1)
+                        nax += 1
+                        shape.append(d)
+                        kv[f"{pn}_{ax}"] = d
+                    kargs.append({"dtype": DTYPE_OF[ty], "shape": shape})
+            rid = f"p{len(reqs)}"
+            reqs.append({"id": rid, "fn": "pyx_kernel", "key": key, "kargs": kargs,
+                         "seed": rng.randrange(10 ** 6), "cls": mode, "timeout": 60})
+            model.append(f"psites {key} 10 " + ",".join(f"{k}={v}" for k, v in sorted(kv.items())))
+            ctx.case(("pyx_kernel", key, json.dumps(kv, sort_keys=True)), True,
+                     {"kernel": key, "mode": mode, "values": kv} if len(reqs) % 17 == 0 else None)
+            ctx.count(f"kernel-boundary-shapes:{mode}")
+    return reqs, model
+
+
+def needed_extent(info, sym, sc):
+    """smallest extent the contract asks for (max over the `sym >= e` relations)"""
+    need = 0
+    for rel in info["contract"]:
+        m = rel.split(">=")
+        if len(m) == 2 and m[0].strip() == sym:
+            try:
+                need = max(need, int(eval(m[1], {"__builtins__": {}}, dict(sc))))
+            except NameError:
+                need = max(need, 5)
+    return need
 
 
 def replay(ctx, rp):
